@@ -184,6 +184,10 @@ var (
 	epochCtr uint64
 )
 
+// TraceAll makes every Exec keep its event log (set while a failing tape is
+// re-run for the replay file).
+var TraceAll bool
+
 type abortT struct{}
 
 var abortSentinel = &abortT{}
@@ -259,6 +263,9 @@ func Exec(cfg Config, main func()) Result {
 	r := &Run{cfg: cfg, tape: cfg.Tape, epoch: epochCtr, finished: make(chan struct{}), maxYields: cfg.MaxYields}
 	if r.maxYields == 0 {
 		r.maxYields = 50_000_000
+	}
+	if TraceAll {
+		cfg.Trace = true
 	}
 	if cfg.Trace {
 		n := cfg.TraceCap
@@ -415,6 +422,10 @@ func (r *Run) switchTo(self, next *Task) {
 	}
 	r.switches++
 	r.swSig = (r.swSig ^ uint64(next.id+1) ^ uint64(r.steps)<<20) * 0x100000001b3
+	if r.trace != nil && r.ntrace < len(r.trace) {
+		r.trace[r.ntrace] = Event{Seq: r.nev, Task: r.cur, Kind: "switch-to", A: int64(next.id)}
+		r.ntrace++
+	}
 	r.cur = next.id
 	raceDisable()
 	next.wake <- struct{}{}
